@@ -598,6 +598,13 @@ def layout_checks(ctx, rng, shared, round_seed):
         'phase_align(longer x)': lambda: C.phase_align(ro(ph), ro(np.r_[vals, vals[:2]])),
         'get_control_points(Cycles,longer)': lambda: C.get_control_points(ro(np.r_[np.sin(ph), 0., 0., 0.]), C.Cycles(ph.copy())),
         'hilberthuang(longer)': lambda: SP.hilberthuang(ro(f60), ro(np.r_[a60, a60[:1]]), e),
+        # mismatches in which something else happens to agree: the same number of elements (a transposed array), one axis longer and
+        # the other shorter, an extra column
+        'hilberthuang(transposed amplitudes)': lambda: SP.hilberthuang(ro(f60), ro(a60.T), e),
+        'hilberthuang(transposed, sparse)': lambda: SP.hilberthuang(ro(f60[:7]), ro(a60[:7].T), e, return_sparse=True),
+        'hilberthuang(61x1 vs 60x2)': lambda: SP.hilberthuang(ro(f60), ro(rng.uniform(0, 2, (61, 1))), e),
+        'hilberthuang(extra column)': lambda: SP.hilberthuang(ro(f60), ro(rng.uniform(0, 2, (60, 3))), e),
+        'holospectrum(transposed first level)': lambda: SP.holospectrum(ro(f60.T), ro(rng.uniform(0, 4, (60, 2, 2))), ro(rng.uniform(0, 1, (60, 2, 2))), e, e),
     }
     for name, f in mism.items():
         case = {'kind': 'mismatch', 'routine': name, 'round_seed': round_seed}
